@@ -766,6 +766,15 @@ func elementIndexTerms(ts []*Term, max int) []*Term {
 					seen[c.String()] = true
 					out = append(out, c)
 				}
+				// an element of a re-sliced slice is read at (off + L) + k: the index relative to the underlying
+				// slice, L + k, is an instantiation point for facts stated over that slice
+				if p0 := idx.Args[0]; (p0.Op == "+" || p0.Op == "bvadd") && len(p0.Args) == 2 && hasSkolem(c) {
+					rel := &Term{Op: idx.Op, Sort: idx.Sort, Args: []*Term{p0.Args[1], c}}
+					if !seen[rel.String()] {
+						seen[rel.String()] = true
+						out = append(out, rel)
+					}
+				}
 				// the absolute index too (quantified facts about freshly built arrays speak of absolute indices)
 				if hasSkolem(idx) && !seen[idx.String()] {
 					seen[idx.String()] = true
@@ -841,9 +850,33 @@ func rowFrameInstances(terms []*Term, frames []rowFrame, defs map[string]*Def) [
 		walk(t, false)
 	}
 	var out []*Term
-	for round := 0; round < 6 && len(bys) > 0 && len(out) < 300; round++ {
+	for round := 0; round < 10 && len(bys) > 0 && len(out) < 400; round++ {
 		var nb []bt
 		for _, b := range bys {
+			// peel one store off a memory: select(store(M, b1, r), idx) is r if b1 = idx, else select(M, idx)
+			if b.x.Op == "select" && len(b.x.Args) == 2 {
+				m := b.x.Args[0]
+				if m.Op == "var" {
+					if d, ok := defs[m.Name]; ok {
+						m = d.T
+					}
+				}
+				if m.Op == "store" && !termEq(m.Args[1], b.x.Args[1]) {
+					idx := b.x.Args[1]
+					same := Eq(m.Args[1], idx)
+					inner := Select(m.Args[0], idx)
+					cur := App("bytes$", SBytes, b.x, b.o, b.n)
+					t1 := App("bytes$", SBytes, m.Args[2], b.o, b.n)
+					t2 := App("bytes$", SBytes, inner, b.o, b.n)
+					out = append(out, Implies(same, Eq(cur, t1)), Implies(Not(same), Eq(cur, t2)))
+					for _, nt := range []*Term{t1, t2} {
+						if k := nt.String(); !seen[k] {
+							seen[k] = true
+							nb = append(nb, bt{nt.Args[0], b.o, b.n})
+						}
+					}
+				}
+			}
 			for _, f := range frames {
 				if !termEq(resolveRow(b.x, defs), f.na) {
 					continue
